@@ -665,3 +665,278 @@ theorem released_take_prefix (info : Nat → Pipeline.Info) (server : MainLoop.E
   exact List.prefix_append _ _
 
 end TLX.Lemmas.Pipeline
+
+-- ------------------------------------------------------------------ C. hello records
+namespace TLX.Lemmas.Pipeline
+open TLX TLX.Spec.TlsHello TLX.Lemmas.TlsHello
+
+/-- an extension as the dict of `handle_tls_server_hello` keeps it: 2-byte type ↦ body -/
+def extPair (e : Ext) : Bytes × Bytes := (u16 e.ty, e.body)
+
+theorem extsPayload_length_ge (es : List Ext) : 4 * es.length ≤ (extsPayload es).length := by
+  induction es with
+  | nil => simp [extsPayload]
+  | cons e es ih =>
+    rw [extsPayload_cons]
+    simp only [List.length_append, u16_length, List.length_cons]
+    omega
+
+/-- the `while extensions_index < extensions_length` loop over an RFC-encoded extension block -/
+theorem extLoop_payload (ebin : Bytes) (es : List Ext) (hwf : ∀ e ∈ es, e.wf) (pre : Bytes) (fuel : Nat)
+    (hf : es.length ≤ fuel) (acc : Session.Exts) (h : ebin = pre ++ extsPayload es) :
+    Session.extLoop ebin ebin.length fuel pre.length acc = acc ++ es.map extPair := by
+  induction es generalizing pre fuel acc with
+  | nil =>
+    have : ebin.length = pre.length := by rw [h]; simp [extsPayload]
+    cases fuel with
+    | zero => simp [Session.extLoop]
+    | succ n => simp [Session.extLoop, this]
+  | cons e es ih =>
+    cases fuel with
+    | zero => simp at hf
+    | succ n =>
+      have he : e.wf := hwf e (by simp)
+      rw [extsPayload_cons] at h
+      have hlt : pre.length < ebin.length := by
+        rw [h]; simp only [List.length_append, u16_length]; omega
+      have e1 : Bytes.slice ebin (pre.length + 2) (pre.length + 4) = u16 e.body.length :=
+        slice_cursor ebin (pre ++ u16 e.ty) (u16 e.body.length) (e.body ++ extsPayload es) _ _
+          (by rw [h]; simp only [List.append_assoc]) (by simp only [List.length_append, u16_length])
+          (by rw [u16_length])
+      have e2 : Bytes.slice ebin pre.length (pre.length + 2) = u16 e.ty :=
+        slice_cursor ebin pre (u16 e.ty) _ _ _ h rfl (by rw [u16_length])
+      have e3 : Bytes.slice ebin (pre.length + 4) (pre.length + 4 + e.body.length) = e.body :=
+        slice_cursor ebin (pre ++ u16 e.ty ++ u16 e.body.length) e.body (extsPayload es) _ _
+          (by rw [h]; simp only [List.append_assoc]) (by simp only [List.length_append, u16_length]) rfl
+      have hidx : pre.length + e.body.length + 4 = (pre ++ encodeExt e).length := by
+        simp only [encodeExt, vec16, List.length_append, u16_length]; omega
+      rw [Session.extLoop, if_pos hlt]
+      simp only [e1, beNat_u16 _ he.2, e2, e3, hidx]
+      rw [ih (fun e' h' => hwf e' (by simp [h'])) (pre ++ encodeExt e) n (by simpa using hf) _
+        (by rw [h]; simp only [encodeExt, vec16, List.append_assoc])]
+      simp [extPair]
+
+theorem parseExts_payload (es : List Ext) (hwf : ∀ e ∈ es, e.wf) :
+    Session.parseExts (extsPayload es) (extsPayload es).length = es.map extPair := by
+  have := extLoop_payload (extsPayload es) es hwf [] (extsPayload es).length
+    (by have := extsPayload_length_ge es; omega) [] rfl
+  simpa [Session.parseExts] using this
+
+/-- the extension block at the end of a hello (absent, or `extensions<0..2^16-1>`) as lines 367-376 read it -/
+theorem extblk_parse (r pre : Bytes) (o : Option (List Ext)) (hwf : optExtsWf o) (i : Nat)
+    (h : r = pre ++ encodeOptExts o) (hi : pre.length = i) :
+    Session.parseExts (Bytes.slice r (i + 2) (i + 2 + Bytes.beNat (Bytes.slice r i (i + 2))))
+      (Bytes.beNat (Bytes.slice r i (i + 2))) = (o.getD []).map extPair := by
+  cases o with
+  | none =>
+    have hr : r = pre := by simpa [encodeOptExts] using h
+    have e1 : Bytes.slice r i (i + 2) = [] := by
+      subst hr hi; simp [Bytes.slice]
+    rw [e1]
+    have e2 : Bytes.slice r (i + 2) (i + 2 + Bytes.beNat []) = [] := by
+      simp [Bytes.slice, Bytes.beNat]
+    rw [e2]
+    rfl
+  | some es =>
+    obtain ⟨hes, hlen⟩ := hwf
+    have e1 : Bytes.slice r i (i + 2) = u16 (extsPayload es).length :=
+      slice_cursor r pre _ (extsPayload es) i (i + 2)
+        (by rw [h]; simp only [encodeOptExts, encodeExts, vec16]) hi (by rw [u16_length])
+    rw [e1, beNat_u16 _ hlen]
+    have e2 : Bytes.slice r (i + 2) (i + 2 + (extsPayload es).length) = extsPayload es := by
+      have := slice_cursor r (pre ++ u16 (extsPayload es).length) (extsPayload es) [] (i + 2)
+        (i + 2 + (extsPayload es).length)
+        (by rw [h]; simp only [encodeOptExts, encodeExts, vec16, List.append_assoc, List.append_nil])
+        (by simp only [List.length_append, u16_length, hi]) rfl
+      exact this
+    rw [e2]
+    exact parseExts_payload es hes
+
+theorem extGet_mem (e : Session.Exts) (k v : Bytes) (h : Session.extGet e k = some v) : (k, v) ∈ e := by
+  unfold Session.extGet at h
+  obtain ⟨p, hp, rfl⟩ := Option.map_eq_some_iff.mp h
+  have h1 := List.find?_some hp
+  have h2 := List.mem_of_find?_eq_some hp
+  simp only [decide_eq_true_eq] at h1
+  rw [← h1]
+  exact List.mem_reverse.mp h2
+
+theorem extGet_of_unique (e : Session.Exts) (k v : Bytes) (hm : (k, v) ∈ e) (hu : ∀ p ∈ e, p.1 = k → p.2 = v) :
+    Session.extGet e k = some v := by
+  unfold Session.extGet
+  cases hf : e.reverse.find? (fun p => decide (p.1 = k)) with
+  | none =>
+    have := List.find?_eq_none.mp hf (k, v) (List.mem_reverse.mpr hm)
+    simp at this
+  | some p =>
+    have h1 := List.find?_some hf
+    have h2 := List.mem_reverse.mp (List.mem_of_find?_eq_some hf)
+    simp only [decide_eq_true_eq] at h1
+    simp [hu p h2 h1]
+
+theorem extGet_isSome_iff (e : Session.Exts) (k : Bytes) :
+    (Session.extGet e k).isSome = true ↔ ∃ p ∈ e, p.1 = k := by
+  unfold Session.extGet
+  rw [Option.isSome_map, List.find?_isSome]
+  simp
+
+theorem u16_inj (a b : Nat) (ha : a < 65536) (hb : b < 65536) (h : u16 a = u16 b) : a = b := by
+  rw [← beNat_u16 a ha, ← beNat_u16 b hb, h]
+
+/-- a TLS-over-TCP record carrying one handshake message (RFC 5246 §6.2.1 TLSPlaintext, type 22) -/
+def hsRecord (recVer msg : Bytes) : Bytes := Spec.TlsSender.record 22 recVer msg
+
+theorem hsRecord_fields (recVer msg : Bytes) (car : List Nat) (hv : recVer.length = 2) :
+    (⟨hsRecord recVer msg, car⟩ : Session.Rec).typ = some 22 ∧
+    (⟨hsRecord recVer msg, car⟩ : Session.Rec).ver = recVer ∧
+    (⟨hsRecord recVer msg, car⟩ : Session.Rec).body = msg := by
+  match recVer, hv with
+  | [a, b], _ =>
+    have h2 := Lemmas.RecLayer.u16_length msg.length
+    simp only [hsRecord, Spec.TlsSender.record, Session.Rec.typ, Session.Rec.ver, Session.Rec.body]
+    generalize Spec.TlsSender.u16 msg.length = l at *
+    match l, h2 with
+    | [l1, l2], _ => exact ⟨rfl, rfl, rfl⟩
+
+/-- `handle_tls_server_hello` on an RFC-encoded ServerHello: the fields it slices out are the fields sent -/
+theorem serverHello_layout {δ : Type} (O : Session.Ops δ) (s : Session.St δ) (recVer : Bytes)
+    (hrv : recVer.length = 2) (sh : ServerHello) (hwf : sh.WellFormed) (car : List Nat) :
+    Session.serverHello O s ⟨hsRecord recVer (encodeServerHello sh), car⟩ =
+      Session.serverHelloKeys O
+        (Session.chooseVersion (Session.latch s) (Bytes.beNat recVer) (Bytes.beNat sh.legacyVersion)
+          (decide (Session.extGet ((sh.extensions.getD []).map extPair) [0x00, 0x2b] = some [0x03, 0x04])))
+        sh.cipherSuite sh.random ((sh.extensions.getD []).map extPair) sh.compressionMethod := by
+  obtain ⟨hlv, hrnd, hsid, hsuite, hext, hlen⟩ := hwf
+  obtain ⟨_, hver, hbody⟩ := hsRecord_fields recVer (encodeServerHello sh) car hrv
+  have hsid' : sh.sessionIdEcho.length < 256 := by omega
+  unfold Session.serverHello
+  simp only [hver, hbody]
+  have hr : encodeServerHello sh = (u8 2 ++ u24 sh.body.length) ++ (sh.legacyVersion ++ (sh.random ++
+      (UInt8.ofNat sh.sessionIdEcho.length :: (sh.sessionIdEcho ++ (sh.cipherSuite ++
+        (sh.compressionMethod :: encodeOptExts sh.extensions)))))) := by
+    simp only [encodeServerHello, handshake, ServerHello.body, vec8, u8_eq, List.append_assoc, List.cons_append,
+      List.nil_append]
+  generalize encodeServerHello sh = r at hr
+  have hh : (u8 2 ++ u24 sh.body.length).length = 4 := by simp only [List.length_append, u8_length, u24_length]
+  have e1 : r[38]? = some (UInt8.ofNat sh.sessionIdEcho.length) :=
+    get_cursor r ((u8 2 ++ u24 sh.body.length) ++ (sh.legacyVersion ++ sh.random)) _
+      (sh.sessionIdEcho ++ (sh.cipherSuite ++ (sh.compressionMethod :: encodeOptExts sh.extensions))) 38
+      (by rw [hr]; simp only [List.append_assoc]) (by simp only [List.length_append] at hh ⊢; omega)
+  have e2 : Bytes.slice r 4 6 = sh.legacyVersion :=
+    slice_cursor r _ _ _ 4 6 hr hh (by omega)
+  have e3 : Bytes.slice r 6 38 = sh.random :=
+    slice_cursor r ((u8 2 ++ u24 sh.body.length) ++ sh.legacyVersion) sh.random
+      (UInt8.ofNat sh.sessionIdEcho.length :: (sh.sessionIdEcho ++ (sh.cipherSuite ++
+        (sh.compressionMethod :: encodeOptExts sh.extensions)))) 6 38
+      (by rw [hr]; simp only [List.append_assoc]) (by simp only [List.length_append] at hh ⊢; omega) (by omega)
+  have e4 : Bytes.slice r (38 + sh.sessionIdEcho.length + 1) (38 + sh.sessionIdEcho.length + 1 + 2) = sh.cipherSuite :=
+    slice_cursor r ((u8 2 ++ u24 sh.body.length) ++ (sh.legacyVersion ++ (sh.random ++
+        (UInt8.ofNat sh.sessionIdEcho.length :: sh.sessionIdEcho)))) sh.cipherSuite
+      (sh.compressionMethod :: encodeOptExts sh.extensions) _ _
+      (by rw [hr]; simp only [List.append_assoc, List.cons_append])
+      (by simp only [List.length_append, List.length_cons] at hh ⊢; omega) (by omega)
+  have e5 : r[38 + sh.sessionIdEcho.length + 1 + 2]? = some sh.compressionMethod :=
+    get_cursor r ((u8 2 ++ u24 sh.body.length) ++ (sh.legacyVersion ++ (sh.random ++
+        (UInt8.ofNat sh.sessionIdEcho.length :: (sh.sessionIdEcho ++ sh.cipherSuite))))) sh.compressionMethod
+      (encodeOptExts sh.extensions) _
+      (by rw [hr]; simp only [List.append_assoc, List.cons_append])
+      (by simp only [List.length_append, List.length_cons] at hh ⊢; omega)
+  have e6 := extblk_parse r ((u8 2 ++ u24 sh.body.length) ++ (sh.legacyVersion ++ (sh.random ++
+        (UInt8.ofNat sh.sessionIdEcho.length :: (sh.sessionIdEcho ++ (sh.cipherSuite ++ [sh.compressionMethod]))))))
+      sh.extensions hext (38 + sh.sessionIdEcho.length + 1 + 3)
+      (by rw [hr]; simp only [List.append_assoc, List.cons_append, List.nil_append])
+      (by simp only [List.length_append, List.length_cons, List.length_nil] at hh ⊢; omega)
+  simp only [e1, toNat_ofNat _ hsid']
+  generalize 38 + sh.sessionIdEcho.length + 1 = n at e4 e5 e6 ⊢
+  have h5 : n + 3 + 2 = n + 5 := by omega
+  rw [h5] at e6
+  simp only [e2, e3, e4, e5, e6]
+
+theorem clientHello_layout (ch : ClientHello) (hwf : ch.WellFormed) :
+    Bytes.slice (encodeClientHello ch) 6 38 = ch.random ∧
+    ∃ rest, encodeClientHello ch = 1 :: rest := by
+  obtain ⟨hlv, hrnd, _⟩ := hwf
+  have hh : (u8 1 ++ u24 ch.body.length).length = 4 := by simp only [List.length_append, u8_length, u24_length]
+  constructor
+  · exact slice_cursor _ ((u8 1 ++ u24 ch.body.length) ++ ch.legacyVersion) ch.random
+      (vec8 ch.sessionId ++ (vec16 ch.cipherSuites.flatten ++ (vec8 ch.compression ++ encodeOptExts ch.extensions))) 6 38
+      (by simp only [encodeClientHello, handshake, ClientHello.body, List.append_assoc])
+      (by simp only [List.length_append] at hh ⊢; omega) (by omega)
+  · exact ⟨_, by simp only [encodeClientHello, handshake, u8_eq, List.cons_append, List.nil_append]; rfl⟩
+
+/-- The protocol version a ServerHello record announces (SSL 3.0 – TLS 1.2: RFC 6101 §5.6.1.2 / RFC 5246 §7.4.1.3,
+    Appendix E.1: `server_version`, and the record layer uses the negotiated version from the ServerHello on;
+    TLS 1.3: RFC 8446 §4.1.3, §4.2.1, §5.1: `legacy_version = legacy_record_version = 0x0303`, the version is in the
+    `supported_versions` extension (type 43), extension types are unique in a block, §4.2). -/
+def Negotiated (recVer : Bytes) (sh : ServerHello) : Session.Ver → Prop
+  | .ssl30 => recVer = [3, 0] ∧ sh.legacyVersion = [3, 0]
+  | .tls10 => recVer = [3, 1] ∧ sh.legacyVersion = [3, 1]
+  | .tls11 => recVer = [3, 2] ∧ sh.legacyVersion = [3, 2]
+  | .tls12 => recVer = [3, 3] ∧ sh.legacyVersion = [3, 3] ∧
+      ∀ e ∈ sh.extensions.getD [], e.ty = 43 → e.body ≠ [3, 4]
+  | .tls13 => recVer = [3, 3] ∧ sh.legacyVersion = [3, 3] ∧ ((sh.extensions.getD []).map (·.ty)).Nodup ∧
+      ∃ e ∈ sh.extensions.getD [], e.ty = 43 ∧ e.body = [3, 4]
+
+theorem nodup_map_inj {α β : Type} (f : α → β) (l : List α) (h : (l.map f).Nodup) :
+    ∀ a ∈ l, ∀ b ∈ l, f a = f b → a = b := by
+  induction l with
+  | nil => simp
+  | cons x xs ih =>
+    simp only [List.map_cons, List.nodup_cons, List.mem_map, not_exists, not_and] at h
+    intro a ha b hb hab
+    rcases List.mem_cons.mp ha with rfl | ha' <;> rcases List.mem_cons.mp hb with rfl | hb'
+    · rfl
+    · exact absurd hab.symm (h.1 b hb')
+    · exact absurd hab (h.1 a ha')
+    · exact ih h.2 a ha' b hb' hab
+
+theorem is13_iff (es : List Ext) (hwf : ∀ e ∈ es, e.wf) :
+    ((∀ e ∈ es, e.ty = 43 → e.body ≠ [3, 4]) → Session.extGet (es.map extPair) [0x00, 0x2b] ≠ some [0x03, 0x04]) ∧
+    ((es.map (·.ty)).Nodup → (∃ e ∈ es, e.ty = 43 ∧ e.body = [3, 4]) →
+      Session.extGet (es.map extPair) [0x00, 0x2b] = some [0x03, 0x04]) := by
+  have h43 : ([0x00, 0x2b] : Bytes) = u16 43 := by decide
+  constructor
+  · intro hno hget
+    have := extGet_mem _ _ _ hget
+    obtain ⟨e, he, hp⟩ := List.mem_map.mp this
+    simp only [extPair, Prod.mk.injEq] at hp
+    rw [h43] at hp
+    exact hno e he (u16_inj _ _ (hwf e he).1 (by omega) hp.1) hp.2
+  · rintro hnd ⟨e, he, hty, hb⟩
+    apply extGet_of_unique
+    · exact List.mem_map.mpr ⟨e, he, by simp [extPair, hty, hb, h43]⟩
+    · intro p hp hk
+      obtain ⟨e', he', rfl⟩ := List.mem_map.mp hp
+      simp only [extPair] at hk ⊢
+      rw [h43] at hk
+      have hty' : e'.ty = e.ty := by rw [hty]; exact u16_inj _ _ (hwf e' he').1 (by omega) hk
+      have : e' = e := nodup_map_inj (·.ty) _ hnd e' he' e he hty'
+      rw [this, hb]
+
+theorem chooseVersion_negotiated {δ : Type} (s : Session.St δ) (recVer : Bytes) (sh : ServerHello)
+    (hwf : sh.WellFormed) (v : Session.Ver) (h : Negotiated recVer sh v) :
+    Session.chooseVersion s (Bytes.beNat recVer) (Bytes.beNat sh.legacyVersion)
+      (decide (Session.extGet ((sh.extensions.getD []).map extPair) [0x00, 0x2b] = some [0x03, 0x04]))
+      = { s with ver := some v } := by
+  have hes : ∀ e ∈ sh.extensions.getD [], e.wf := by
+    have := hwf.2.2.2.2.1
+    cases hx : sh.extensions with
+    | none => simp
+    | some es => rw [hx] at this; exact this.1
+  obtain ⟨h1, h2⟩ := is13_iff _ hes
+  have b0 : Bytes.beNat [3, 0] = 768 := by decide
+  have b1 : Bytes.beNat [3, 1] = 769 := by decide
+  have b2 : Bytes.beNat [3, 2] = 770 := by decide
+  have b3 : Bytes.beNat [3, 3] = 771 := by decide
+  cases v with
+  | ssl30 => obtain ⟨a, b⟩ := h; rw [a, b]; simp [Session.chooseVersion, b0]
+  | tls10 => obtain ⟨a, b⟩ := h; rw [a, b]; simp [Session.chooseVersion, b1]
+  | tls11 => obtain ⟨a, b⟩ := h; rw [a, b]; simp [Session.chooseVersion, b2]
+  | tls12 =>
+    obtain ⟨a, b, c⟩ := h
+    rw [a, b, decide_eq_false (h1 c)]; simp [Session.chooseVersion, b3]
+  | tls13 =>
+    obtain ⟨a, b, c, d⟩ := h
+    rw [a, b, decide_eq_true (h2 c d)]; simp [Session.chooseVersion, b3]
+
+end TLX.Lemmas.Pipeline
